@@ -1127,7 +1127,7 @@ func main() {
 	cf := &gallina.CaseFile{Dir: f.Out, Type: "case", PerShard: 12,
 		Preamble: "From Coq Require Import List ZArith Bool Uint63.\nFrom Verif Require Import lib.Int64 model.Checkpoint model.Agent corr.CorrC48.\nImport ListNotations.\nOpen Scope uint63_scope.\n",
 		Footer:   gallina.StdFooter}
-	n := f.Count(30, 1000)
+	n := f.Count(30, 400)
 	emit := func(idx int, w *world, kind string) {
 		must(w.db.Close())
 		os.RemoveAll(w.root)
